@@ -284,7 +284,91 @@ var c11RetNum = core.Mon(c11, "returned-number", func(w *core.W, c *RetNumCase) 
 	}
 })
 
+// CtxLookCase: only a parameter of type context.Context itself receives the caller's context; a first parameter that
+// merely implements the interface (a request type embedding a context, a wider interface) is an ordinary parameter.
+type CtxLookCase struct {
+	Fn   string `json:"fn"`
+	Args string `json:"args"`
+	Want string `json:"want"` // "call:<what it must receive>" or "reject"
+}
+
+type request struct {
+	context.Context
+	ID string
+}
+
+type widerCtx interface {
+	context.Context
+	Tenant() string
+}
+
+type tenantCtx struct {
+	context.Context
+	tenant string
+}
+
+func (t tenantCtx) Tenant() string { return t.tenant }
+
+var ctxLookCases = []CtxLookCase{
+	{"greet", "req, 'hello'", "call:req-7/hello"}, {"greet", "'hello'", "reject"}, {"greet", "req", "reject"}, {"greet", "", "reject"},
+	{"wide", "tc, 'x'", "call:acme/x"}, {"wide", "'x'", "reject"},
+	{"plain", "'hello'", "call:ctx/hello"}, {"plain", "req, 'hello'", "reject"},
+	{"reqval", "rv, 'v'", "call:req-9/v"}, {"reqval", "'v'", "reject"},
+	{"anyfirst", "req, 'z'", "call:any/z"}, {"anyfirst", "'z'", "reject"},
+}
+
+var c11CtxLook = core.Mon(c11, "context-lookalike", func(w *core.W, c *CtxLookCase) {
+	var got []string
+	token := new(int)
+	ctx := context.WithValue(context.Background(), ctxKey{}, token)
+	data := map[string]interface{}{
+		"req": &request{Context: context.Background(), ID: "req-7"}, "rv": request{Context: context.Background(), ID: "req-9"}, "tc": tenantCtx{context.Background(), "acme"},
+		"greet":    func(r *request, s string) (string, error) { got = append(got, r.ID+"/"+s); return "ok", nil },
+		"reqval":   func(r request, s string) (string, error) { got = append(got, r.ID+"/"+s); return "ok", nil },
+		"wide":     func(t widerCtx, s string) (string, error) { got = append(got, t.Tenant()+"/"+s); return "ok", nil },
+		"anyfirst": func(a interface{}, s string) (string, error) { got = append(got, "any/"+s); return "ok", nil },
+		"plain": func(cx context.Context, s string) (string, error) {
+			if cx.Value(ctxKey{}) == token {
+				got = append(got, "ctx/"+s)
+			} else {
+				got = append(got, "other-context/"+s)
+			}
+			return "ok", nil
+		},
+	}
+	src := c.Fn + "(" + c.Args + ")"
+	sc, err := hostParse([]byte(src), true)
+	if err != nil {
+		return
+	}
+	r := formula.NewRunner()
+	r.SetThis(data)
+	var v interface{}
+	var rerr error
+	w.Eval(1)
+	w.Count("context_lookalike_cases")
+	w.Nontrivial("ctxlook:" + src)
+	if p, pv := core.Call(func() { v, rerr = r.Resolve(ctx, sc.Expression) }); p {
+		w.Violation("context-lookalike", "C11/escaped-panic", c, c.Want, fmt.Sprint(pv), src)
+		return
+	}
+	if c.Want == "reject" {
+		if len(got) != 0 || rerr == nil {
+			w.Violation("context-lookalike", "C11/called-despite-mismatch", c, "not called, an error", fmt.Sprint(got, " ", show(v), " ", rerr), src+": the argument count does not fit the declared parameters")
+		}
+		return
+	}
+	if rerr != nil || len(got) != 1 || "call:"+got[0] != c.Want {
+		w.Violation("context-lookalike", "C11/declared-parameters", c, c.Want, fmt.Sprint(got, " ", rerr), src+": every declared parameter other than context.Context itself is supplied by the formula")
+	}
+})
+
 func runC11b(w *core.W) {
+	for i := range ctxLookCases {
+		if w.Mine(i) {
+			c11CtxLook(w, &ctxLookCases[i])
+		}
+	}
 	ri := 0
 	ints := []int64{0, 1, -1, 7, 255, 256, -128, 65535, 1 << 31, -(1 << 31), 1<<31 - 1, 1 << 32, 1<<53 - 1, 1 << 53, 1<<53 + 1, 1 << 62, math.MaxInt64, math.MinInt64, math.MaxInt64 - 1, 999999999999999999, -999999999999999999, 1000000000000000000}
 	for _, k := range []string{"int", "int32", "int64"} {
